@@ -111,6 +111,19 @@ pub struct Dag<N, E, Ix = u32> {
     /// reach[a] bit b: there is a path a ->* b (reflexive).
     reach: [u16; MAX_NODES],
 }
+/// `Vec::push` into storage that was reserved up front: no capacity test, hence
+/// no grow / realloc path for the symbolic executor to follow. The callers
+/// assert the model bound (`len < capacity`) first.
+fn push_reserved<T>(v: &mut Vec<T>, item: T) {
+    let len = v.len();
+    assert!(len < v.capacity(), "model bound exceeded: reserved storage");
+    // SAFETY: len < capacity, the slot is uninitialised and owned by `v`.
+    unsafe {
+        core::ptr::write(v.as_mut_ptr().add(len), item);
+        v.set_len(len + 1);
+    }
+}
+
 pub type RawNodes<'a, N, Ix> = &'a [Node<N, Ix>];
 pub type RawEdges<'a, E, Ix> = &'a [Edge<E, Ix>];
 
@@ -162,7 +175,7 @@ impl<N, E, Ix: IndexType> Dag<N, E, Ix> {
     }
     pub fn add_node(&mut self, weight: N) -> NodeIndex<Ix> {
         assert!((self.n_nodes as usize) < MAX_NODES, "model bound exceeded: MAX_NODES");
-        self.nodes.push(Node { weight, _ix: PhantomData });
+        push_reserved(&mut self.nodes, Node { weight, _ix: PhantomData });
         self.n_nodes += 1;
         NodeIndex::new(self.n_nodes as usize - 1)
     }
@@ -194,7 +207,7 @@ impl<N, E, Ix: IndexType> Dag<N, E, Ix> {
         let (ai, bi) = (a.index(), b.index());
         assert!((self.n_edges as usize) < MAX_EDGES, "model bound exceeded: MAX_EDGES");
         assert!((self.out_n[ai] as usize) < ADJ && (self.in_n[bi] as usize) < ADJ, "model bound exceeded: ADJ");
-        self.edges.push(Edge { weight, node: [a, b] });
+        push_reserved(&mut self.edges, Edge { weight, node: [a, b] });
         let ei = self.n_edges as usize;
         self.n_edges += 1;
         self.e_src[ei] = ai as u8;
